@@ -3,6 +3,7 @@
 package main
 
 import (
+	"bytes"
 	"encoding/json"
 	"flag"
 	"fmt"
@@ -223,6 +224,7 @@ func runHist(seed uint64, n, shards int, out, tmp, backend string, p h.GenParams
 		}
 		s.Files = append(s.Files, name)
 	}
+	alignGrid(&s, out)
 	return s
 }
 
@@ -273,6 +275,49 @@ func writeShards(s *summary, cases []h.Case, shards int, out, prefix string) {
 		}
 		s.Files = append(s.Files, name)
 	}
+}
+
+// alignGrid (C03): the alignment arithmetic on a boundary grid, including values next to the
+// int64 limit, library against model (mismatch code 15) and against the definition.
+func alignGrid(s *summary, out string) {
+	const max = int64(^uint64(0) >> 1)
+	offs := []int64{0, 1, 2, 3, 7, 8, 511, 512, 513, 4095, 4096, 4097, 65535, 65536, 1<<31 - 1, 1 << 31, 1<<32 + 5,
+		1<<62 - 1, 1 << 62, max - 4097, max - 4096, max - 4095, max - 513, max - 512, max - 511, max - 9, max - 8, max - 7, max - 2, max - 1, max}
+	aligns := []int{-4096, -1, 0, 1, 2, 3, 7, 8, 512, 513, 4095, 4096, 4097, 65536, 1<<31 - 1, 1 << 31, 1<<62 + 1, int(max)}
+	var rows []string
+	for _, o := range offs {
+		for _, a := range aligns {
+			got, err := sif.VerifNextAligned(o, a)
+			s.OracleRuns["alignment-grid"]++
+			// the definition: the least multiple of a that is >= o, an error when it exceeds the limit
+			want, overflow := o, false
+			if a > 0 && o%int64(a) != 0 {
+				rem := int64(a) - o%int64(a)
+				if max-o < rem {
+					overflow = true
+				} else {
+					want = o + rem
+				}
+			}
+			if overflow != (err != nil) || !overflow && got != want {
+				s.Oracle = append(s.Oracle, h.Finding{Property: "C03", Case: 0,
+					What: fmt.Sprintf("nextAligned(%d, %d) = %d, %v; the least multiple at or after the offset is %d (overflow=%v)", o, a, got, err, want, overflow)})
+			}
+			r := "None"
+			if err == nil {
+				r = fmt.Sprintf("(Some %s)", h.CoqZ(got))
+			}
+			rows = append(rows, fmt.Sprintf("(%s, %s, %s)", h.CoqZ(o), h.CoqZ(int64(a)), r))
+		}
+	}
+	src := "From Coq Require Import List ZArith.\nFrom Sif Require Import Bytes Store Format Image.\nImport ListNotations.\nLocal Open Scope Z_scope.\n" +
+		"Definition agrid : list (Z * Z * option Z) := [\n  " + strings.Join(rows, ";\n  ") + "].\n" +
+		"Definition M := Eval vm_compute in flat_map (fun c => match c with (o, a, r) =>\n" +
+		"  match next_aligned o a, r with\n  | Some x, Some y => if x =? y then [] else [(o, a, 15)]\n  | None, None => []\n  | _, _ => [(o, a, 15)]\n  end end) agrid.\nPrint M.\n"
+	if err := os.WriteFile(filepath.Join(out, "Cases_align_0.v"), []byte(src), 0o644); err != nil {
+		panic(err)
+	}
+	s.Files = append(s.Files, "Cases_align_0.v")
 }
 
 func runLoad(seed uint64, n, shards int, out, tmp, backend string, maxcap, maxops, queries, corpus int) summary {
@@ -813,6 +858,27 @@ func runCrash(seed uint64, n, shards int, out, tmp string, thorough bool, p h.Ge
 				cases = append(cases, mc)
 			}
 		}
+	}
+	// sign: every storage call of Sign fails once; crash points between its calls
+	{
+		k := h.LoadKeys("/repo")
+		signCalls, signFaults := 0, 0
+		for v := 0; v < 4; v++ {
+			r := root.Fork()
+			b, info := h.GenGroupedImage(r)
+			if len(info.Groups) == 0 {
+				continue
+			}
+			cfg := h.GenSignConfig(r, k, b.Bytes())
+			id++
+			fs, n, nf := h.SignFaults(k, id, bytes.Clone(b.Bytes()), cfg, fmt.Sprintf("image {%s}; sign {%s}", info.Desc, cfg.String()))
+			s.Oracle = append(s.Oracle, fs...)
+			s.OracleRuns["sign-fault-injection"]++
+			signCalls += n
+			signFaults += nf
+		}
+		s.Extra["sign_calls"] = signCalls
+		s.Extra["sign_injected_failures"] = signFaults
 	}
 	s.Extra["crash_points_between_calls"] = st.Boundaries
 	s.Extra["torn_write_points"] = st.Torn
